@@ -108,6 +108,15 @@ let () =
              (match r with CDone (w, _, _) -> "OK " ^ hex_of_z w | CTooSmall -> "ERR" | COverrun -> "OVERRUN" | CFuel -> "FUEL")
        | "J" -> (* J n jobSize bsFirst bsNext hs chk *)
            Printf.printf "J %s\n" (optz (mt_raw_frame (a 1) (a 2) (a 3) (a 4) (a 5) (f.(6) = "1")))
+       | "D" -> (* D nbSeq s:e:d,s:e:d,...   -> split locations the model derives from the recorded decisions *)
+           let dl = if Array.length f < 3 || f.(2) = "-" then [] else
+             List.map (fun t -> match String.split_on_char ':' t with
+                                | [s; e; d] -> ((z_of_hex s, z_of_hex e), d = "1")
+                                | _ -> failwith "bad decision") (String.split_on_char ',' f.(2)) in
+           Printf.printf "D %s\n" (String.concat "," (List.map hex_of_z (derive_table dl (a 1))))
+       | "Q" -> (* Q numSplits len *)
+           Printf.printf "Q %s %s %s %s %s\n" (hex_of_z (emitted_partitions (a 1) (a 2))) (hex_of_z (weak_block_cost (a 2))) (hex_of_z (kb_blocks (a 2)))
+             (hex_of_z mAX_NB_BLOCK_SPLITS) (hex_of_z mIN_SEQUENCES_BLOCK_SPLITTING)
        | "" -> ()
        | _ -> Printf.printf "?\n");
     done
